@@ -572,6 +572,8 @@ func propC07(j *Job) {
 	}
 	for _, mode := range modes {
 		j.Explore(fmt.Sprintf("FR/%s", mode.Name), fwdAcrossResetScenario(withBase(mode.A, 228, 0xFFFFFFF9, 4000), withBase(mode.B, 228, 50, 4000)), Budget{}, nil)
+		// several readers blocked on the stream whose queued messages a skip report releases
+		j.Explore(fmt.Sprintf("RS/%s/readers2", mode.Name), readersGapScenario(withBase(mode.A, 228, 0xFFFFFFFE, 4000), withBase(mode.B, 228, 0xFFFFFFF0, 4000), 2, true), Budget{D: map[bool]int{false: 0, true: 1}[j.Thorough()]}, nil)
 		for _, v := range []string{"crossing", "lost-sacks"} {
 			j.Explore(fmt.Sprintf("FG/%s/%s", mode.Name, v), fwdAfterResetScenario(withBase(mode.A, 228, 0xFFFFFFF9, 4000), withBase(mode.B, 228, 50, 4000), v), Budget{}, nil)
 		}
